@@ -13,6 +13,31 @@ thread_local! {
 
 static HOOK_INSTALLED: AtomicBool = AtomicBool::new(false);
 
+thread_local! {
+    static CUR_FAMILY: RefCell<String> = const { RefCell::new(String::new()) };
+    static CUR_INDEX: std::cell::Cell<u64> = const { std::cell::Cell::new(0) };
+}
+
+/// The explorer records which case the calling worker is executing, so that a process-level death
+/// (non-unwinding panic such as a violated unsafe precondition, sanitizer abort) can still name it.
+pub fn set_current_family(name: &str) {
+    CUR_FAMILY.with(|f| {
+        let mut f = f.borrow_mut();
+        if *f != name {
+            f.clear();
+            f.push_str(name);
+        }
+    });
+}
+#[inline]
+pub fn set_current_index(i: u64) {
+    CUR_INDEX.with(|c| c.set(i));
+}
+pub fn current_case() -> String {
+    let fam = CUR_FAMILY.with(|f| f.try_borrow().map(|s| s.clone()).unwrap_or_default());
+    format!("{}:{}", fam, CUR_INDEX.with(|c| c.get()))
+}
+
 /// Installs a panic hook that records location + message of panics raised inside
 /// `guard` (silently) and prints everything else (harness bugs) as usual.
 pub fn install_quiet_hook() {
@@ -22,6 +47,15 @@ pub fn install_quiet_hook() {
     let default = panic::take_hook();
     panic::set_hook(Box::new(move |info| {
         let inside = IN_GUARD.with(|g| *g.borrow());
+        {
+            // "unsafe precondition(s) violated ..." and "panic in a function that cannot unwind" abort the
+            // process right after the hook: name the case first (PanicInfo::can_unwind is not stable yet)
+            let text = format!("{}", info);
+            if text.contains("unsafe precondition") || text.contains("cannot unwind") {
+                eprintln!("NON-UNWINDING-PANIC {}", text.replace('\n', " "));
+                eprintln!("ABORT-CASE {}", current_case());
+            }
+        }
         if inside {
             let loc = info
                 .location()
